@@ -122,21 +122,25 @@ public:
 
     [[nodiscard]] const std::array<key_length_type, key_slice_length>&
     get_key_length_ref() const {
+        YAKUSHIMA_VERIF_PRE(k_load, o_slot_key, &key_length_);
         return key_length_;
     }
 
     [[nodiscard]] key_length_type
     get_key_length_at(const std::size_t index) const {
+        YAKUSHIMA_VERIF_PRE(k_load, o_slot_key, &key_length_.at(index));
         return key_length_.at(index);
     }
 
     [[nodiscard]] const std::array<key_slice_type, key_slice_length>&
     get_key_slice_ref() const {
+        YAKUSHIMA_VERIF_PRE(k_load, o_slot_key, &key_slice_);
         return key_slice_;
     }
 
     [[nodiscard]] key_slice_type
     get_key_slice_at(const std::size_t index) const {
+        YAKUSHIMA_VERIF_PRE(k_load, o_slot_key, &key_slice_.at(index));
         return key_slice_.at(index);
     }
 
